@@ -341,7 +341,7 @@ def malformed(ctx, P, count):
         j = rng.randrange(N)
         n = len(doc[j])
         z = lambda r, c: numpy.zeros((r, c), dtype=numpy.float32)      # noqa
-        what = rng.choice(['tag_rows', 'dep_shape', 'score_count', 'tag_columns', 'tag_columns_all', 'float64', 'form_mismatch', 'tokens_vs_rows'])
+        what = rng.choice(['tag_rows', 'dep_shape', 'score_count', 'tag_columns', 'tag_columns_all', 'float64', 'form_mismatch', 'tokens_vs_rows', 'tokens_vs_rows'])
         where_first = True
         if what == 'tag_rows':
             scores[j] = ScoringResult(z(n + rng.choice([-1, 1, 2]), K), scores[j].dep_scores)
@@ -359,7 +359,20 @@ def malformed(ctx, P, count):
             d = rng.choice([-1, 1])
             scores = [ScoringResult(z(len(t), K + d), s.dep_scores) for t, s in zip(doc, scores)]
         elif what == 'tokens_vs_rows':       # tag and dep agree with each other, not with the tokens
-            scores[j] = ScoringResult(z(n + 1, K), z(n + 1, n + 2))
+            d = rng.choice([1, 1, -1, 2]) if n > 1 else rng.choice([1, 2])
+            scores[j] = ScoringResult(z(n + d, K), z(n + d, n + d + 1))
+            if rng.random() < 0.7:
+                # ... while a sentence of the SAME batch legitimately has exactly these shapes (before or after the misfit): validity of a
+                # shape is relative to the sentence's own tokens
+                twin = make_sentence(rng, f'm{it}.twin', K, n + d)
+                at = rng.randint(0, len(sents))
+                sents.insert(at, twin)
+                doc.insert(at, twin.tokens)
+                scores.insert(at, ScoringResult(twin.tag, twin.dep))
+                if at <= j:
+                    j += 1
+                N += 1
+                what = 'tokens_vs_rows_twin_' + ('before' if at <= j else 'after')
         elif what == 'float64':
             tgt = rng.choice(['tag', 'dep'])
             if tgt == 'tag':
@@ -460,6 +473,112 @@ def big_cache(ctx, P, n_sent):
         if result_sig(alone[0]) != result_sig(whole[i]):
             ctx.fail('history_dependent', f'big-cache batch: sentence {i} differs from parsing it alone (the call had made {ctx.stats["big_cache:rule_cache_entries"]} rule-function calls)',
                      dict(base, index=i, alone=[(x[0], x[2]) for x in result_sig(alone[0])], batch=[(x[0], x[2]) for x in result_sig(whole[i])]))
+
+
+# ---------------------------------------------------------------------------------------------------------
+def many_categories(ctx, P):
+    """one call whose category table grows to several thousand DERIVED categories (a product grammar: every pair of the m lexical
+    categories creates its own category D_ij, every D_ij has its own unary result V_ij) and then parses short target sentences whose
+    derived categories have ids congruent to the ids of their lexical categories modulo 256 ... 4096: every sentence must come back
+    exactly as when it is parsed alone, all its parses (n-best) included.  The ids are predicted from the recorded order of the
+    rule-function invocations (new categories are numbered in the order the rule functions first return them)."""
+    global _LOG
+    rng = ctx.rng
+    m = rng.choice([66, 70, 74])
+    T = [Category.parse(f'T{i}') for i in range(m)]
+    U = [Category.parse(f'U{i}') for i in range(m)]
+    R = Category.parse('R')
+    table, utable = {}, {}
+    D, V = {}, {}
+    for i in range(m):
+        utable[T[i]] = [CombinatorResult(cat=U[i], op_string=f'u{i}', op_symbol='<u>', head_is_left=True)]
+        for j in range(m):
+            D[i, j] = Category.parse(f'D{i}x{j}')
+            V[i, j] = Category.parse(f'V{i}x{j}')
+            table[(T[i], T[j])] = [CombinatorResult(cat=D[i, j], op_string=f'd{i}_{j}', op_symbol='<d>', head_is_left=(i + j) % 2 == 0)]
+            utable[D[i, j]] = [CombinatorResult(cat=V[i, j], op_string=f'v{i}_{j}', op_symbol='<v>', head_is_left=True)]
+
+    class Lazy(dict):        # the m^3 pairs (U_i, D_jk), (D_ij, U_k), (V_ij, T_k), (T_i, V_jk) are not enumerated
+        def get(self, k, dflt=None):
+            if k in self:
+                return self[k]
+            x, y = (str(c) for c in k)
+            lab = {('U', 'D'): 'ud', ('D', 'U'): 'du', ('V', 'T'): 'vt', ('T', 'V'): 'tv'}.get((x[0], y[0]))
+            if lab is None:
+                return dflt if dflt is not None else []
+            return [CombinatorResult(cat=R, op_string=f'{lab}:{x}:{y}', op_symbol=f'<{lab}>', head_is_left=lab in ('ud', 'vt'))]
+    _syn_count[0] += 1
+    name = f'product{_syn_count[0]}'
+    _TABLES[name] = (Lazy(table), utable)
+    binary, unary = Rule(name, 2), Rule(name, 1)
+    kw = dict(unary_penalty=0.125, beta=1e-3, use_beta=True, pruning_size=m, nbest=6, max_step=400000, max_chunk_size=1000)
+
+    def sentence(sid, tags):
+        s_ = make_sentence(rng, sid, m, len(tags))
+        for j, t in enumerate(tags):
+            if t is None:       # every lexical category survives the beam
+                s_.tag[j, :] = numpy.array([-rng.randint(0, 3) / 8.0 for _ in range(m)], dtype=numpy.float32)
+            else:               # exactly one does
+                s_.tag[j, :] = -20.0
+                s_.tag[j, t] = -rng.randint(0, 3) / 8.0
+        return s_
+    history = sentence('hist', [None, None])        # no derivation (D and V are no roots): the search exhausts all m^2 pairs
+    base = {'scenario': 'many_categories', 'lexical_categories': m, 'kw': {k: repr(v) for k, v in kw.items()}}
+    _LOG = []
+    try:
+        call_run(P, [history], T, [R], binary, unary, kw)
+        log = _LOG
+    except Exception as e:      # noqa
+        _LOG = None
+        ctx.fail('exception', f'product grammar over {m} lexical categories: depccg.parsing.run raised {type(e).__name__}: {str(e)[:200]}', dict(base, error=repr(e)[:300]))
+        return
+    finally:
+        _LOG = None
+    ids = list(T)
+    known = set(ids)
+    for ent in log:
+        for r in ent[-1]:
+            if r.cat not in known:
+                known.add(r.cat)
+                ids.append(r.cat)
+    ctx.stats['many_categories:category_table'] = len(ids)
+    rev = {v: k for k, v in D.items()}
+    targets = []
+    for p_ in (256, 512, 1024, 2048, 4096):
+        for i in [0, 1, 2] + rng.sample(range(3, m), 3):
+            hits = [ids[q] for q in range(p_ + i, len(ids), p_) if ids[q] in rev][:2]
+            for d_ in hits:
+                j, k_ = rev[d_]
+                targets.append((i, j, k_))
+                targets.append((j, k_, i))
+    ctx.stats['many_categories:congruent_targets'] = len(targets)
+    targets += [tuple(rng.randrange(m) for _ in range(rng.choice([2, 3, 3, 4]))) for _ in range(12)]
+    rng.shuffle(targets)
+    sents = [sentence(f'mc{i}', list(t)) for i, t in enumerate(targets)]
+    batch = sents[:1] + [history] + sents[1:]
+    try:
+        whole, _ = call_run(P, batch, T, [R], binary, unary, kw)
+    except Exception as e:      # noqa
+        ctx.fail('exception', f'product grammar: depccg.parsing.run raised {type(e).__name__}: {str(e)[:200]} on a well-formed batch', dict(base, error=repr(e)[:300]))
+        return
+    if len(whole) != len(batch):
+        ctx.fail('result_count', f'product grammar: {len(batch)} sentences in, {len(whole)} result lists out', base)
+        return
+    whole = whole[:1] + whole[2:]
+    for i, (s_, t) in enumerate(zip(sents, targets)):
+        try:
+            alone, _ = call_run(P, [s_], T, [R], binary, unary, kw)
+        except Exception as e:      # noqa
+            ctx.fail('exception', f'product grammar: sentence {i} alone raised {type(e).__name__}: {str(e)[:200]}', dict(base, index=i))
+            continue
+        ctx.case(('many_categories', m, i, t), nontrivial=len(t) > 2)
+        ctx.count('many_categories:' + ('failed' if is_failure(alone[0]) else f'parses={len(alone[0])}'))
+        if len(t) == 3 and len(alone[0]) != 4:
+            ctx.fail('wrong_parse_count', f'product grammar: the three-token sentence with lexical categories {t} has exactly four derivations, {len(alone[0])} returned (nbest=6)',
+                     dict(base, index=i, lexical=list(t)))
+        if result_sig(alone[0]) != result_sig(whole[i]):
+            ctx.fail('history_dependent', f'product grammar: the sentence with lexical categories {t} differs from parsing it alone once the call has created {len(ids)} categories',
+                     dict(base, index=i, lexical=list(t), alone=[(x[0], x[2]) for x in result_sig(alone[0])], batch=[(x[0], x[2]) for x in result_sig(whole[i])]))
 
 
 # ---------------------------------------------------------------------------------------------------------
@@ -705,6 +824,9 @@ def run(ctx):
             big_cache(ctx, P, n_big)
             n_big *= 2
         ctx.stats['big_cache_s'] = round(time.time() - t0, 1)
+        t0 = time.time()
+        many_categories(ctx, P)
+        ctx.stats['many_categories_s'] = round(time.time() - t0, 1)
         rng = ctx.rng
         if ctx.quick:
             plan = [('syn', 45, 'normal'), ('ja', 30, 'normal'), ('en', 8, 'normal'), ('syn', 24, 'dead'), ('ja', 20, 'maxlen'), ('syn', 20, 'maxstep'),
